@@ -73,9 +73,21 @@ def audit(prop, obligations, status):
         seen = {}
         for i in range(1, len(parts) - 1, 2):
             seen[parts[i]] = parts[i + 1]
+        if rc != 0:
+            # one unresolved name or one module that fails to load must not hide the state of the other theorems:
+            # audit them one by one
+            seen = {}
+            ok1 = {}
+            for mod, thm in ok_items:
+                p1 = os.path.join(adir, "Audit1_%s_%s_%s_%s.v" % (prop, fam, mod, re.sub(r"[^A-Za-z0-9_]", "_", thm)))
+                open(p1, "w").write("Require %s.\nPrint Assumptions %s.%s.\n" % (mod, mod, thm))
+                rc1, out1 = build.sh("timeout 600 coqc -Q %s '' %s" % (famdir, p1), cwd=adir)
+                seen["%s.%s" % (mod, thm)] = out1
+                ok1[(mod, thm)] = rc1 == 0
         for mod, thm in ok_items:
             txt = seen.get("%s.%s" % (mod, thm), "")
-            res[(fam, mod, thm)] = (rc == 0) and ("Closed under the global context" in txt)
+            good = (rc == 0) or ok1.get((mod, thm), False) if rc != 0 else True
+            res[(fam, mod, thm)] = bool(good) and ("Closed under the global context" in txt)
             if not res[(fam, mod, thm)]:
                 logs.append("%s.%s: %s" % (mod, thm, txt.strip()[:300] or "not checked (rc=%d)" % rc))
     return res, "\n".join(logs)
